@@ -5,6 +5,12 @@ obligations (`decide +kernel` per setting on certificates) + `checkGroup_sound` 
 The Python side only (a) translates, (b) runs an independent exact oracle used for the
 failing-input search and for the lattice-parameter clause, (c) spot-checks `SymOp.__call__`
 against the model's action.
+
+Space-group TYPE (DS.Props.C03c): translate/screw.py emits, per setting, a certificate of the screw order of every
+operation (least m >= 1 with m*(N t) in N(L)); the kernel checks it (`checkScrew`, one obligation per setting) and compares the
+census of (det, trace, m) per coset with the committed reference of `number % 1000` (lean/DS/Ref/ItCensus.lean);
+`checkScrew_sound` is the hand proof.  `type_census` below is the independent Python oracle of the same invariant
+(failing-input search, replay stream "ittype").
 """
 import itertools
 import json
@@ -308,6 +314,9 @@ def run(ck):
         "translator regenerates all %d settings; one kernel obligation (checkSG = group certificate + counts + centring "
         "letter + crystal class) per setting; independent exact all-pairs oracle in Python on every setting; "
         "lattice-rule oracle on the group-averaged metric and on %d generic cells of other systems; "
+        "one kernel obligation (checkScrew = screw order of every operation by witness + separating functionals, census of "
+        "(det, trace, screw order) per coset against the committed reference of number %% 1000) per setting; the same census "
+        "recomputed by an independent Python oracle on every setting; "
         "distinct_nontrivial = settings with more than one operation" % (nset, len(SHAPES)))
     # 1. Lean obligations (group/metadata certificates, and the lattice-rule certificates of C03b)
     from translate import latpar
@@ -315,6 +324,14 @@ def run(ck):
     lrep = latpar.main(GEN, os.path.join(GEN, "latpar_report.json"))
     ok, info = ck.lean_obligations("DS.Props.C03", extra_count=rep["ok"] + sum(4 for _ in rep["bad"]))
     ok_b, info_b = ck.lean_obligations("DS.Props.C03b", extra_count=lrep.get("obligations", 0))
+    # space-group TYPE certificates (screw order of every operation + census against the committed reference)
+    from translate import screw
+
+    srep = screw.main(GEN, os.path.join(GEN, "screw_report.json"))
+    if not srep.get("reference_in_sync"):
+        raise common.Broken("lean/DS/Ref/ItCensus.lean is not what translate/screw.py --write-reference derives from "
+                            "harness/c03_itcensus.json (reference data edited on one side only)")
+    ok_c, info_c = ck.lean_obligations("DS.Props.C03c", extra_count=srep.get("obligations", 0))
     healthy = not lrep.get("uncertified") and not lrep.get("rule_errors") and not lrep.get("rule_differs_from_model")
     if healthy:
         ok_f, info_f = ck.lean_obligations("DS.Props.C03bFull")
@@ -325,16 +342,18 @@ def run(ck):
         lat_flagged[u["number"]] = u
     # 2. independent oracle on every setting (always, also when everything agrees)
     oracle_fail = {}
+    census_fail = {}
     cref = census_reference()
     for pos, sg in bypos.items():
         r = group_oracle(sg) or counts_oracle(sg)
         ck.coverage["evaluations"] += 1
-        if not r:
-            # the space-group type implied by the operations vs the International Tables number (number % 1000)
+        # the space-group type implied by the operations vs the International Tables number (number % 1000)
+        try:
             cr = census_oracle(sg, cref)
-            if cr:
-                ck.fail("ittype:%s" % sg.number, "setting %s (#%s): %s" % (sg.short_name, sg.number, cr["what"]),
-                        {"kind": "oracle", "setting": sg.number, "stream": "ittype", "detail": cr})
+        except Exception as e:  # operations that are not even integer matrices / 24ths: the group oracle reports them
+            cr = None if r else {"what": "type census raised %r" % (e,)}
+        if cr:
+            census_fail[pos] = cr
         if len(sg.symop_list) > 1:
             ck.coverage["distinct_nontrivial"] += 1
         if r:
@@ -348,6 +367,25 @@ def run(ck):
             ck.fail(key, "setting %s (#%s): %s" % (sg.short_name, b["number"], why),
                     {"kind": "table-obligation", "setting": b["number"], "component": comp, "detail": why, "oracle": o,
                      "theorem": "DS.Gen.%s_%s (kernel-proved = false)" % (b["name"], comp)})
+    # type census: a setting without a kernel-accepted type certificate (translator mirror) and/or rejected by the oracle
+    for b in srep["bad"]:
+        sg = bypos[b["pos"]]
+        o = census_fail.pop(b["pos"], None)
+        thm = ("DS.Gen.%s_type_ops (= true) / DS.Gen.%s_type_census (kernel-proved = false)" % (b["name"], b["name"])
+               if b.get("stage") == "census" else "DS.Gen.%s_type (no certificate: %s)" % (b["name"], b["why"]))
+        if o is None and not oracle_fail.get(b["pos"]):
+            # the certificate search and the oracle disagree: broken obligation without a confirmed input
+            ck.fail("ittype-cert:%s" % b["number"], "setting %s (#%s): no type certificate (%s) but the census oracle accepts it" % (
+                sg.short_name, b["number"], b["why"]),
+                {"kind": "proof-obligation", "setting": b["number"], "stream": "ittype", "theorem": thm, "detail": b}, no_failing_input=True)
+            continue
+        ck.fail("ittype:%s" % b["number"], "setting %s (#%s): %s" % (sg.short_name, b["number"], (o or {}).get("what") or b["why"]),
+                {"kind": "table-obligation", "setting": b["number"], "stream": "ittype", "theorem": thm,
+                 "detail": o or {"what": b["why"]}, "certificate": {k: b.get(k) for k in ("stage", "census", "expected")}})
+    for pos, cr in census_fail.items():
+        sg = bypos[pos]
+        ck.fail("ittype:%s" % sg.number, "setting %s (#%s): %s" % (sg.short_name, sg.number, cr["what"]),
+                {"kind": "oracle", "setting": sg.number, "stream": "ittype", "detail": cr})
     for u in rep["untranslatable"]:
         o = oracle_fail.pop(u["pos"], None)
         ck.fail("untranslatable:%s" % u["number"], "setting #%s: %s" % (u["number"], u["why"]),
@@ -362,6 +400,10 @@ def run(ck):
     if not ok and not ck.violations:
         ck.fail("lean-build", "Lean obligations of C03 no longer check: %s" % (info["failed_modules"],),
                 {"kind": "proof-obligation", "theorem": info["failed_modules"], "errors": info["errors"], "log": info.get("log_tail", "")},
+                no_failing_input=True)
+    if not ok_c and not ck.violations:
+        ck.fail("lean-build-c03c", "Lean obligations of C03c (space-group type census) no longer check: %s" % (info_c["failed_modules"],),
+                {"kind": "proof-obligation", "theorem": info_c["failed_modules"], "errors": info_c["errors"], "log": info_c.get("log_tail", "")},
                 no_failing_input=True)
     # 3. distinct numbers / uniqueness of registered numbers
     nums = [g.number for g in sgs.SpaceGroupList]
@@ -451,6 +493,7 @@ def run(ck):
     snap = [(id(g.symop_list), [id(o) for o in g.symop_list], [(o.R.tolist(), o.t.tolist()) for o in g.symop_list],
              (g.number, g.num_sym_equiv, g.num_primitive_sym_equiv, g.short_name, g.pdb_name, g.crystal_system)) for g in sgs.SpaceGroupList]
     used = []
+    tbl_assert = None
     for pos in poss[:: max(1, len(poss) // 80)]:
         g = bypos[pos]
         mine = [SymOp(numpy.array(o.R, dtype=float), numpy.round(numpy.array(o.t, dtype=float), 4)) for o in g.symop_list]
@@ -460,9 +503,16 @@ def run(ck):
             GetSpaceGroup(g.number)
         except ValueError:
             pass
+        except AssertionError as e:
+            # the library's own consistency assertion on its lookup table (e.g. two settings with identical operations)
+            if tbl_assert is None:
+                tbl_assert = (g.number, "FindSpaceGroup(operations of #%s) raised AssertionError %s" % (g.number, e))
         mine.reverse()
         del mine[1:]
         used.append(g.number)
+    if tbl_assert is not None and not ck.violations:
+        ck.fail("lookup-assert:%s" % tbl_assert[0], "the space-group tables are not consistent: " + tbl_assert[1],
+                {"kind": "history", "setting": tbl_assert[0], "stream": "use", "history": "FindSpaceGroup(copy of the setting's operations)"})
     for g, (lid, oids, vals, meta) in zip(sgs.SpaceGroupList, snap):
         now = (g.number, g.num_sym_equiv, g.num_primitive_sym_equiv, g.short_name, g.pdb_name, g.crystal_system)
         same = id(g.symop_list) == lid and [id(o) for o in g.symop_list] == oids and \
@@ -478,26 +528,32 @@ def run(ck):
     ck.coverage["evaluations"] += len(used)
     ck.coverage["samples"] = [
         {"obligation": "theorem DS.Gen.sg225_ok : checkSG sg225 sg225c = true := by decide +kernel"},
+        {"obligation": "theorem DS.Gen.sg76_type : checkScrew sg76 sg76_sc = true := by decide +kernel"},
         {"driver": lines[0], "model": out[0], "impl": expect[0]},
         {"latpar": "sg #%s invariant cell %r" % (bypos[poss[-1]].number, cell_of_metric(invariant_metric(bypos[poss[-1]], G0)))},
     ]
     ck.coverage["exhaustive"] = True
     ck.coverage["trusted_base"] += ["translate/tables.py (float->24ths conversion, metadata reading; cross-checked against ast literals)",
-                                    "class table / centring table in DS/Model/Sym.lean (reference data)"]
+                                    "class table / centring table in DS/Model/Sym.lean (reference data)",
+                                    "lean/DS/Ref/ItCensus.lean = harness/c03_itcensus.json (reference census of the 230 types; committed, "
+                                    "checked to be in sync)"]
     ck.assumptions += ["lattice-compatibility clause is decided by the implementation-side exact oracle on the group-averaged metric "
                        "(Lean theorem latpar_complete not yet part of the obligations)",
-                       "IT number is checked at the level of crystal class + centring + order"]
+                       "IT number is checked at the level of crystal class + centring + order + rotation/screw and mirror/glide census "
+                       "per coset of the translation group (kernel-checked per setting, DS.Props.C03c); types that share all of these "
+                       "(e.g. enantiomorphic pairs, I222 / I212121) are not told apart"]
     if ck.tier == "thorough":
         thorough(ck)
 
 
 def thorough(ck):
     """leanchecker re-check of the compiled obligations."""
-    with common.LeanLock():
-        rc, out, err = common.run(["lake", "env", "leanchecker", "DS.Props.C03"], cwd=LEAN, timeout=7200)
-    ck.notes.append("leanchecker DS.Props.C03: rc=%d %s" % (rc, (out + err)[-300:]))
-    if rc != 0:
-        raise common.Broken("leanchecker rejected DS.Props.C03: " + (out + err)[-1000:])
+    for mod in ("DS.Props.C03", "DS.Props.C03c"):
+        with common.LeanLock():
+            rc, out, err = common.run(["lake", "env", "leanchecker", mod], cwd=LEAN, timeout=7200)
+        ck.notes.append("leanchecker %s: rc=%d %s" % (mod, rc, (out + err)[-300:]))
+        if rc != 0:
+            raise common.Broken("leanchecker rejected %s: " % mod + (out + err)[-1000:])
 
 
 def replay(path):
@@ -521,6 +577,9 @@ def replay(path):
             FindSpaceGroup(mine)
         except ValueError:
             pass
+        except AssertionError as e:
+            print("FindSpaceGroup raised AssertionError", e)
+            return 1
         mine.reverse()
         del mine[1:]
         after = (id(sg.symop_list), [(o.R.tolist(), o.t.tolist()) for o in sg.symop_list])
